@@ -228,6 +228,44 @@ def inline_new_helpers(crate, raw, defpath, depth=3):
                 nb["t"] = {"line": line, "k": "goto", "t": entry_blk}
                 blocks[i] = nb
                 inlined.append(d)
+        elif d and "{closure" in d and d in crate.by_def and d not in known and d != defpath and (cal.get("via") or {}).get("name") in ("call", "call_mut", "call_once") \
+                and budget > 0 and len(t.get("args", [])) == 2 and inlined.count(d) < 8 and not blocks[i].get("cleanup") and not (crate.by_def[d].get("coroutine") or crate.by_def[d].get("kind") == "SyntheticCoroutineBody"):
+            # a local closure written after the freeze and called directly (`let is_unanimous = |ordering| ..; if is_unanimous(Relaxed) ..`): its body
+            # runs here; the arguments arrive as one tuple
+            try:
+                craw = crate._raw(d)
+            except Exception:
+                craw = None
+            tup = t["args"][1]
+            tp = tup[1] if isinstance(tup, list) and tup and tup[0] in ("m", "c") else None
+            if craw is not None and len(craw["blocks"]) <= 300 and (tp is not None or craw["argc"] == 1):
+                if out is None:
+                    out = {"def": raw.get("def"), "argc": raw["argc"], "locals": list(raw["locals"]), "vars": [list(v) if isinstance(v, list) else v for v in raw["vars"]], "blocks": [dict(b) for b in raw["blocks"]]}
+                    blocks = out["blocks"]
+                budget -= 1
+                lo = len(out["locals"])
+                out["locals"].extend(craw["locals"])
+                for nm, pl in craw["vars"]:
+                    out["vars"].append([nm, _rm_place(pl, lo)])
+                bo = len(blocks) + 2
+                line = t.get("line")
+                dest = t.get("dest")
+                entry_blk, ret_blk = len(blocks), len(blocks) + 1
+                binds = [["A", [lo + 1, []], ["use", t["args"][0]], line]]
+                for k in range(craw["argc"] - 1):
+                    binds.append(["A", [lo + 2 + k, []], ["use", ["m", [tp[0], list(tp[1]) + [["f", k, str(k)]]]]], line])
+                blocks.append({"s": binds, "t": {"line": line, "k": "goto", "t": bo}})
+                cont = t.get("t")
+                blocks.append({"s": ([["A", dest, ["use", ["m", [lo, []]]], line]] if dest is not None else []),
+                               "t": ({"line": line, "k": "goto", "t": cont} if isinstance(cont, int) else {"line": line, "k": "unreachable"})})
+                _RM_CTX["owner"] = d
+                for bl in craw["blocks"]:
+                    blocks.append(_rm_block(bl, lo, bo, ret_blk))
+                _RM_CTX["owner"] = None
+                nb = dict(blocks[i])
+                nb["t"] = {"line": line, "k": "goto", "t": entry_blk}
+                blocks[i] = nb
+                inlined.append(d)
         elif isinstance(cal, dict) and (cal.get("name") == "poll" or (cal.get("via") or {}).get("name") == "poll") and budget > 0 and len(t.get("args", [])) == 2 \
                 and not blocks[i].get("cleanup"):
             # `helper(..).await` where helper is an async fn extracted after the freeze: the body of its future runs here
@@ -2557,9 +2595,10 @@ def describe_place(body, place, depth=0):
             d = None
         da = d
         hops_ = 4
-        while da is not None and hops_ > 0 and da[0] == "assign" and da[3][0] == "use" and da[3][1][0] in ("c", "m") and not da[3][1][1][1] and projs:
+        while da is not None and hops_ > 0 and da[0] == "assign" and projs and (
+                (da[3][0] == "use" and da[3][1][0] in ("c", "m") and not da[3][1][1][1]) or (da[3][0] == "ref" and not da[3][2][1])):
             hops_ -= 1
-            da = body.single_def(da[3][1][1][0])
+            da = body.single_def(da[3][1][1][0] if da[3][0] == "use" else da[3][2][0])
         if da is not None and da is not d and da[0] == "assign" and da[3][0] == "agg" and isinstance(da[3][1], dict) and (da[3][1].get("closure") or da[3][1].get("coroutine")):
             d = da
         if d is not None and d[0] == "assign" and d[3][0] == "agg" and isinstance(d[3][1], dict) and (d[3][1].get("closure") or d[3][1].get("coroutine") or d[3][1].get("tuple")):
